@@ -379,7 +379,59 @@ def array_validate_pads_previous():
     return 'bool', 'false'
 
 
-FACTS = [array_validate_pads_previous, predefined_names, error_classes, error_names, error_default_is_InternalError, update_messages_ok,
+def struct_missing_optional_means_all_optional():
+    """description -> datatypes for structs: StructOf.export_datatype leaves the key 'optional' out exactly when ALL
+    members are optional, StructOf.__init__ reads optional=None as "all members", and DATATYPES['struct'] (used by
+    get_datatype, i.e. by the client) hands a missing key on as None: `lambda members, optional=None, pname='', **kwds:
+    StructOf(optional, **dict(..))`.  The three sites only work together (seed C12-7 changes the default to () and the
+    client rebuilds an all-optional struct as all-mandatory)."""
+    tree = parse('frappy/datatypes.py')
+    cls = find_class(tree, 'StructOf')
+    init = [_nospace(x) for x in find_func(cls, '__init__').body]
+    ok = 'self.optional=list(membersifoptionalisNoneelseoptional)' in init
+    a = find_func(cls, '__init__').args
+    ok = ok and [x.arg for x in a.args] == ['self', 'optional'] and len(a.defaults) == 1 and const(a.defaults[0]) is None
+    exp = [_nospace(x) for x in find_func(cls, 'export_datatype').body]
+    ok = ok and "ifset(self.optional)!=set(self.members):res['optional']=self.optional" in exp
+    d = find_assign(tree, 'DATATYPES')
+    if not isinstance(d, ast.Dict):
+        raise Shape('DATATYPES is not a dict display')
+    lam = None
+    for k, v in zip(d.keys, d.values):
+        if const(k) == 'struct':
+            lam = v
+    if not isinstance(lam, ast.Lambda):
+        raise Shape("DATATYPES['struct'] is not a lambda")
+    names = [x.arg for x in lam.args.args]
+    if 'optional' not in names:
+        return 'bool', 'false'
+    i = names.index('optional') - (len(names) - len(lam.args.defaults))
+    ok = ok and i >= 0 and isinstance(lam.args.defaults[i], ast.Constant) and lam.args.defaults[i].value is None
+    call = lam.body
+    ok = ok and isinstance(call, ast.Call) and _nospace(call.func) == 'StructOf' and len(call.args) == 1 \
+        and _nospace(call.args[0]) == 'optional'
+    return 'bool', cbool(ok)
+
+
+def struct_validate_merges_previous():
+    """StructOf.validate(value, previous): `result = dict(previous or {})`, then for every member given (and not None)
+    `result[key] = self.members[key].validate(val)`, `self.check_missing(result, True)`, `return ImmutableDict(result)`"""
+    f = find_func(find_class(parse('frappy/datatypes.py'), 'StructOf'), 'validate')
+    if [a.arg for a in f.args.args] != ['self', 'value', 'previous']:
+        return 'bool', 'false'
+    body = [st for st in f.body if not (isinstance(st, ast.Expr) and isinstance(st.value, ast.Constant))]
+    tries = [st for st in body if isinstance(st, ast.Try)]
+    if len(tries) != 1:
+        return 'bool', 'false'
+    tb = tries[0].body
+    ok = len(tb) == 2 and _nospace(tb[0]) == 'result=dict(previousor{})' and isinstance(tb[1], ast.For) \
+        and _nospace(tb[1].target) in ('key,val', '(key,val)') and _nospace(tb[1].iter) == 'value.items()' \
+        and [_nospace(x) for x in tb[1].body] == ['ifvalisnotNone:result[key]=self.members[key].validate(val)']
+    ok = ok and _nospace(body[-1]) == 'returnImmutableDict(result)' and _nospace(body[-2]) == 'self.check_missing(result,True)'
+    return 'bool', cbool(ok)
+
+
+FACTS = [array_validate_pads_previous, struct_validate_merges_previous, struct_missing_optional_means_all_optional, predefined_names, error_classes, error_names, error_default_is_InternalError, update_messages_ok,
          timestamp_clamped_before_update, reply_update_precedes_release, reply_error_not_stored_again,
          shorthand_lookup_shape, update_value_order, callback_iterates_copy, unregister_handler_checks_membership,
          register_appends_in_place, dispatch_removes_from_fetched_list, internalize_shape]
